@@ -156,6 +156,10 @@ def resolve_strings(ctx, maxlen, n_random, n_mut):
                 if t and rng.random() < 0.4: del t[rng.randrange(len(t))]
                 else: t.insert(rng.randrange(len(t) + 1), rng.choice(RES_ALPHA))
             strings.append(''.join(t))
+    # long members of the type productions (no length limit in the YAML 1.1 rules): around 64, 128, 256 and 1000 characters
+    for n in (63, 64, 65, 66, 127, 129, 257, 1000):
+        strings += ['1' * n, '-' + '9' * n, '0b' + '10' * (n // 2), '0x' + 'fE' * (n // 2), '0' + '7' * n, '1_0' * (n // 3), '1' * (n - 3) + ':30', '0.' + '3' * n, '1' + '0' * n + '.e+3',
+                    '.' + '5' * n, '2001-12-14 21:59:43.' + '1' * n, '1' * n + 'x', 'y' * n, '~' * n]
     return strings
 
 def resolve(ctx, strings, label='resolve'):
